@@ -215,7 +215,7 @@ func (b *broker) publish(pub *wamp.Session, msg *wamp.Publish) {
 			abortMsg.Details = wamp.Dict{}
 			abortMsg.Details[wamp.OptMessage] = ErrPPTNotSupportedByPeer.Error()
 			b.trySend(pub, &abortMsg)
-			pub.Close()
+			pub.EndRecv(abortedGoodbye)
 
 			return
 		}
